@@ -243,10 +243,39 @@ run_history.nwrites_before = 0
 run_history.prev_writes = None
 
 
+def twins(ctx, rng, n):
+    """two or three device objects of different capability profiles living in one process, their histories interleaved:
+    each ends in the state, and each simulated unit has received the property writes, of the same history run alone"""
+    names = list(PROFILES)
+    for _ in range(n):
+        k = rng.choice([2, 2, 3])
+        profs = [rng.choice(names) for _ in range(k)]
+        hists = [gen_history(rng, p_, rng.randrange(2, 8)) for p_ in profs]
+        beeps = [rng.random() < 0.5 for _ in range(k)]
+        alone = []
+        for p_, h, b in zip(profs, hists, beeps):
+            sim = PropDevice(ctx, p_)
+            (st, state), = devrun.run_twins(rng, [([("beep", str(int(b)))], h, sim)])
+            alone.append((st, state, [sorted((a, hx(v)) for a, v in w) for w in sim.writes]))
+        sims = [PropDevice(ctx, p_) for p_ in profs]
+        together = devrun.run_twins(rng, [([("beep", str(int(b)))], h, sim) for h, b, sim in zip(hists, beeps, sims)])
+        inp = {"profiles": profs, "histories": [[o[1] + (":" + o[2] if o[0] == "set" else "") for o in h] for h in hists]}
+        for j in range(k):
+            got = (together[j][0], together[j][1], [sorted((a, hx(v)) for a, v in w) for w in sims[j].writes])
+            if got != alone[j]:
+                diff = "state" if got[1] != alone[j][1] else "writes" if got[2] != alone[j][2] else "status"
+                ctx.violate("twins", {**inp, "object": j}, {"status": got[0], "writes": got[2][:4], "state": got[1][:200]},
+                            {"status": alone[j][0], "writes": alone[j][2][:4], "state": alone[j][1][:200]},
+                            f"a device object behaves differently ({diff}) when another object is used in the same process")
+                break
+        ctx.case("twins", key=str(inp), sample={"profiles": profs})
+
+
 def run(ctx):
     rng = ctx.rng
     if not ctx.driver:
         return
+    twins(ctx, rng, 20 if ctx.tier == "quick" else 400)
     n = 25 if ctx.tier == "quick" else 400
     maxlen = 8 if ctx.tier == "quick" else 25
     for name in PROFILES:
